@@ -134,8 +134,9 @@ CHECKS = {
              '+ - * neg conjugate dot and integer powers (-3..5, _pow_singular) equal the idempotent decomposition e1 f(z1-iz2) + '
              'e2 f(z1+iz2) for all component values (polynomial / rational identities); exp sin cos sinh cosh expm1 equal the '
              'decomposition oracle as consequences of the addition theorems (complex functions uninterpreted, axioms applied as '
-             'oriented rewrites, identities decided by z3); log1p is consistent with the library log of 1+zeta; reduction on z2=0. '
-             'log, sqrt, non-integer powers, division, tan family and all inverse functions are NOT covered.',
+             'oriented rewrites, identities decided by z3); log1p is consistent with the library log of 1+zeta; reduction on z2=0; '
+             'exp(log(zeta)) == zeta on the slice z2=0 (branch logic of _arg_c). log in general, sqrt, non-integer powers, division, '
+             'tan family and all inverse functions are NOT covered.',
         note='Trusted: z3 arithmetic normaliser and nlsat; the listed addition-theorem axioms; counterexamples are confirmed '
              'numerically against numpy complex functions at random points.',
         technique=TECH + ' (QF_UFNRA with instantiated addition-theorem axioms)',
